@@ -75,7 +75,7 @@ def run_tlexport(packets, keylog_txt=None, args=(), capture_kw=None, legacy=Fals
         shutil.rmtree(d, ignore_errors=True)
 
 
-def concrete_frames(ep, items, t0_us=100000000, dt_us=1000000, group=None):
+def concrete_frames(ep, items, t0_us=100000000, dt_us=1000000, group=None, seg_size=None):
     """As pipeline.tcp_frames but with real checksums; timestamps are integer microseconds."""
     out = []
     groups = group or [[i] for i in range(len(items))]
@@ -86,11 +86,13 @@ def concrete_frames(ep, items, t0_us=100000000, dt_us=1000000, group=None):
         data = b"".join(bytes(items[i].data) for i in g)
         src = (ep.s_ip, ep.s_port, ep.s_mac) if from_server else (ep.c_ip, ep.c_port, ep.c_mac)
         dst = (ep.c_ip, ep.c_port, ep.c_mac) if from_server else (ep.s_ip, ep.s_port, ep.s_mac)
-        seq = ep.seq[from_server]
-        ep.seq[from_server] = seq + len(data)
-        out.append((F.concrete_tcp_frame(src[2], dst[2], ep.ipv == 6, src[0], dst[0], src[1], dst[1], seq, 0, 0x18, data, ident), t))
-        t += dt_us
-        ident += 1
+        pieces = [data] if not seg_size else [data[k:k + seg_size] for k in range(0, len(data), seg_size)]
+        for piece in pieces:
+            seq = ep.seq[from_server]
+            ep.seq[from_server] = seq + len(piece)
+            out.append((F.concrete_tcp_frame(src[2], dst[2], ep.ipv == 6, src[0], dst[0], src[1], dst[1], seq, 0, 0x18, piece, ident), t))
+            t += dt_us
+            ident += 1
     return out
 
 
